@@ -27,6 +27,7 @@ ENGINE = {
  "C07": "every read result between actions and from inside closures, plus the oracle: reads do not move between stabilises, new observers are NeverStabilised, values are the snapshot values",
  "C09": "per-subscription callback sequences, plus the oracle: Initialised once, Changed exactly on a changed value, nothing after unsubscribe/disallow/drop",
  "C10": "results of read/subscribe/unsubscribe/state-unsubscribe over lifecycle-heavy histories, plus the lifecycle automaton as oracle",
+ "C13": "fault enumeration: a panic injected at every individual user-function invocation (node, fold, bind, cutoff functions and update handlers) of every stabilise of every generated history, followed by reads, a second stabilise and dropping everything; whole traces compared, plus the oracle (reads refused or fully propagated, second stabilise refuses, drops do not panic or abort)",
  "C11": "the full engine state (hook dump) after every single op, model vs crate, plus the audit (edges symmetric with matching indices, heights, heap = necessary and stale once each, counters, handler counts) evaluated on the crate's dumps",
 }
 checks = []
